@@ -266,6 +266,7 @@ static void closeall (int fd)
 static int _pipecmd (char *path, char *args[], int *fd2p, pid_t *ppid)
 {
     int sp[2], esp[2];
+    sigset_t set;
 
     /*
      *  Get socketpair for stdin/out
@@ -312,6 +313,15 @@ static int _pipecmd (char *path, char *args[], int *fd2p, pid_t *ppid)
          */
         closeall (3);
 
+        /*  Every thread of pdsh blocks SIGINT, SIGTSTP and SIGCHLD (dsh.c
+         *   _mask_signals): do not hand that mask to the command, or the
+         *   SIGINT forwarded by pipecmd_signal() stays pending for ever.
+         */
+        sigemptyset (&set);
+        sigaddset (&set, SIGINT);
+        sigaddset (&set, SIGTSTP);
+        sigaddset (&set, SIGCHLD);
+        sigprocmask (SIG_UNBLOCK, &set, NULL);
         setsid ();
         execvp (path, args);
         err ("%p: execvp %s failed: %m\n", path);
